@@ -1,6 +1,9 @@
 import NmlVerif.Model.Accessors
+import NmlVerif.Model.Rx
+import NmlVerif.Model.AccSummary
 import NmlVerif.DrvCommon
 open Lean NmlVerif.Acc Drv
+open NmlVerif.Rx (accepts timeRx refRx nmlIdRx TimeNum RefParts)
 
 /-! Line protocol for C19. Values: null | true/false | integer | string | {"f": "<decimal>"} (a float given by its
     exact decimal spelling) | {"objs": n}.  Floats go out as {"q": [num, den]} (exact rationals). -/
@@ -78,6 +81,46 @@ def netOf (j : Json) : Except String Net := do
     lists := (name, items) :: lists
   return fun n => (lists.lookup n).getD []
 
+/-! ### the object tree of a document, for the model of the whole of `summary()` -/
+
+def optStrPairs (j : Json) : List (String × Option String) :=
+  match j with
+  | .obj kvs => kvs.toList.map (fun (k, v) => (k, match v with
+      | .str s => some s
+      | _ => none))
+  | _ => []
+
+def leafOf (j : Json) : Summ.Leaf :=
+  ⟨getStr j "text", optStrPairs (getObj j "s"),
+   (optStrPairs (getObj j "o")).filterMap (fun (k, v) => v.map (fun s => (k, s)))⟩
+
+def subListsOf (j : Json) : List (String × Summ.SubList) :=
+  match j with
+  | .obj kvs => kvs.toList.map (fun (k, v) => (k, ⟨getNat v "n", (getArr v "elems").toList.map leafOf⟩))
+  | _ => []
+
+def itemOfTree (j : Json) : Summ.Item :=
+  ⟨getStr j "cls", getStr j "text", optStrPairs (getObj j "s"), getInt? j "size", subListsOf (getObj j "lists")⟩
+
+def netOfTree (j : Json) : Summ.NetD :=
+  ⟨optStrPairs (getObj j "s"),
+   match getObj j "lists" with
+   | .obj kvs => kvs.toList.map (fun (k, v) => (k, match v with
+       | .arr a => a.toList.map itemOfTree
+       | _ => []))
+   | _ => []⟩
+
+def memberOfTree (j : Json) : Summ.Member :=
+  ⟨getStr j "name", getStr j "cls", (getArr j "entries").toList.map (fun e =>
+    match getStr e "k" with
+    | "none" => Summ.Entry.skipped
+    | "tag" => Summ.Entry.shown (getStr e "v" ++ " = " ++ getStr e "v2")
+    | _ => Summ.Entry.shown (getStr e "v"))⟩
+
+def docOfTree (j : Json) : Summ.DocD :=
+  ⟨getStr? j "id", getBool j "show_includes", getBool j "show_non_network",
+   (getArr j "members").toList.map memberOfTree, (getArr j "nets").toList.map netOfTree⟩
+
 def handle (j : Json) : Json :=
   match getStr j "op" with
   | "acc" =>
@@ -120,9 +163,44 @@ def handle (j : Json) : Json :=
           ("lines", Json.arr (summaryLines.map (fun l => Json.str (renderLine summaryTable net l))).toArray),
           ("totals", Json.arr ([Tot.cells, .pops, .conns, .projs, .inputs, .inputLists].map
             (fun t => Json.num (total summaryTable net t : Nat))).toArray)])).toArray)]
+  | "summary_text" =>
+    match Summ.summaryText Summ.netProg (docOfTree (getObj j "doc")) with
+    | .ok t => Json.mkObj [("ok", t)]
+    | .error e => Json.mkObj [("err", errName e)]
   | "match_time" =>
     let s := (getStr j "s").toList
-    Json.mkObj [("match", matchTime s), ("num", String.ofList (timeNumSplit s).1)]
+    Json.mkObj [("match", matchTime s), ("num", String.ofList (timeNumSplit s).1), ("rx", accepts timeRx s)]
+  | "match_ref" =>
+    let s := (getStr j "s").toList
+    Json.mkObj [("rx", accepts refRx s)]
+  | "match_id" =>
+    let s := (getStr j "s").toList
+    Json.mkObj [("rx", accepts nmlIdRx s), ("isNmlId", isNmlId s)]
+  | "time_parts" =>
+    -- the reading of a number spelling the theorems of Props/C19Rx quantify over: its text and its value
+    let optL := fun (k : String) => match j.getObjVal? k with
+      | .ok (.str x) => some x.toList
+      | _ => none
+    let ex : Option (Char × Bool × List Char) := match j.getObjVal? "ex" with
+      | .ok e => match (getStr e "mark").toList with
+        | [c] => some (c, getBool e "neg", (getStr e "digits").toList)
+        | _ => none
+      | _ => none
+    let p : TimeNum := ⟨getBool j "neg", (getStr j "ip").toList, optL "fd", ex⟩
+    Json.mkObj [("text", String.ofList p.text),
+      ("value", match p.value with
+        | some q => Json.arr #[toString q.num, toString q.den]
+        | none => Json.null)]
+  | "ref_parts" =>
+    let optL := fun (k : String) => match j.getObjVal? k with
+      | .ok (.str x) => some x.toList
+      | _ => none
+    let p : RefParts := ⟨getBool j "dots", (getStr j "pop").toList, (getStr j "d1").toList,
+      (strList (getObj j "more")).map String.toList, optL "comp", getBool j "slash"⟩
+    Json.mkObj [("text", String.ofList p.text),
+      ("outcome", match p.outcome with
+        | .ok n => Json.mkObj [("ok", Json.mkObj [("i", toString n)])]
+        | .error e => Json.mkObj [("err", errName e)])]
   | "spec" =>
     -- the vocabulary of the theorem statements, so the harness can check it generates exactly these strings
     let pop := (getStr j "pop").toList
